@@ -423,6 +423,68 @@ fn history<F: Family>(input: &Input, ctx: &mut Ctx) -> CaseResult {
     Ok(())
 }
 
+/// An async encode that starts on one OS thread and is finished on another (a work-stealing runtime moves a task while
+/// its sink is not ready). Both threads are fresh and the second one has just encoded another packet itself, so whatever
+/// per-thread bookkeeping the encoder keeps is in the same state on both. The sink receives the packet's own encoding.
+macro_rules! migrate_impl {
+    ($name:ident, $fam:ty, $pkt:ty) => {
+        fn $name(input: &Input, ctx: &mut Ctx) -> CaseResult {
+            let mut t = Tape::new(input.tape());
+            let cfg = crate::gen::GenCfg::SMALL;
+            let p: $pkt = <$fam>::gen_of_type(&mut t, &cfg, 2).map_err(|e| Violation::new(e.0))?;
+            let q: $pkt = <$fam>::gen(&mut t, &cfg).map_err(|e| Violation::new(e.0))?;
+            let enc = p.encode().map_err(|e| Violation::new(format!("{:?}", e)))?.as_ref().to_vec();
+            let encq = q.encode().map_err(|e| Violation::new(format!("{:?}", e)))?.as_ref().to_vec();
+            if enc.len() < 3 {
+                return Ok(());
+            }
+            let k = 1 + t.pick(enc.len() - 2);
+            let steps = [WStep::Accept(k), WStep::Pending];
+            let mut w = ScriptedWriter::new(&steps, enc.len() + 16);
+            let outcome: Result<(), String> = std::thread::scope(|sc| {
+                // thread 1: start the encode, park it on the sink that is not ready, hand the future over
+                let (tx, rx) = std::sync::mpsc::channel();
+                let pref = &p;
+                let wref = &mut w;
+                let h1 = sc.spawn(move || {
+                    let mut fut = Box::pin(pref.encode_async(wref));
+                    let first = sio::poll_n(fut.as_mut(), 1);
+                    let _ = tx.send((fut, first.is_some()));
+                });
+                let qref = &q;
+                let encq_ref = &encq;
+                let h2 = sc.spawn(move || -> Result<(), String> {
+                    // thread 2: one complete encode of its own first, then the other thread's future
+                    let mut own: Vec<u8> = Vec::new();
+                    let (r, _) = sio::drive(qref.encode_async(&mut own), 8);
+                    if r.is_err() || own != *encq_ref {
+                        return Err("the second thread's own encode_async into a Vec did not produce encode()".to_string());
+                    }
+                    let (mut fut, done) = rx.recv().map_err(|_| "no future arrived".to_string())?;
+                    if !done {
+                        let (r, _) = sio::drive(fut.as_mut(), 64);
+                        if let Err(e) = r {
+                            return Err(format!("encode_async resumed on another thread failed: {:?}", e));
+                        }
+                    }
+                    Ok(())
+                });
+                let _ = h1.join();
+                h2.join().unwrap_or_else(|_| Err("a thread panicked while an encode moved between threads".to_string()))
+            });
+            outcome.map_err(Violation::new)?;
+            ensure!(w.out == enc, "encode_async started on one thread (sink took {} bytes, then was not ready) and finished on another that had just encoded {}: the sink holds {} instead of {}", k, hex_short(&encq, 24), hex_short(&w.out, 48), hex_short(&enc, 48));
+            ctx.label("encode-finished-on-another-thread");
+            ctx.count_distinct(1);
+            Ok(())
+        }
+    };
+}
+migrate_impl!(migrate_v3, V3, mqtt_proto::v3::Packet);
+migrate_impl!(migrate_v5, V5, mqtt_proto::v5::Packet);
+pub const SUB_M3: Sub = Sub { name: "c09.migrating.v3", f: migrate_v3 };
+pub const SUB_M5: Sub = Sub { name: "c09.migrating.v5", f: migrate_v5 };
+
 /// Packet values that came out of a decoder (re-spelled, leniently framed, mutated frames included) go through every
 /// encoder entry point like constructed ones: whatever spelling a value was decoded from, all entry points agree on it.
 fn case_decoded<F: Family>(input: &Input, ctx: &mut Ctx) -> CaseResult {
@@ -456,7 +518,7 @@ pub const SUB_T3: Sub = Sub { name: "c09.typed.v3", f: case_typed::<V3> };
 pub const SUB_T5: Sub = Sub { name: "c09.typed.v5", f: case_typed::<V5> };
 
 pub fn subs() -> Vec<Sub> {
-    vec![SUB_V3, SUB_V5, SUB_T3, SUB_T5, SUB_S3, SUB_S5, SUB_H3, SUB_H5, SUB_D3, SUB_D5]
+    vec![SUB_V3, SUB_V5, SUB_T3, SUB_T5, SUB_S3, SUB_S5, SUB_H3, SUB_H5, SUB_D3, SUB_D5, SUB_M3, SUB_M5]
 }
 
 pub fn run(env: &mut Env) -> RunResult {
@@ -465,6 +527,10 @@ pub fn run(env: &mut Env) -> RunResult {
     env.run_tapes(SUB_V5, n * 2, 240)?;
     env.run_tapes(SUB_T3, n / 2, 140)?;
     env.run_tapes(SUB_T5, n, 240)?;
+    env.run_tapes(SUB_M3, env.tier.sel(40, 400), 200)?;
+    env.run_tapes(SUB_M5, env.tier.sel(40, 400), 300)?;
+    env.require("c09.migrating.v3", "encode-finished-on-another-thread");
+    env.require("c09.migrating.v5", "encode-finished-on-another-thread");
     env.run_tapes(SUB_D3, n / 2, 260)?;
     env.run_tapes(SUB_D5, n, 360)?;
     for s in ["c09.decoded-values.v3", "c09.decoded-values.v5"] {
